@@ -3,6 +3,7 @@ import itertools
 from ..tree import *  # noqa
 from ..flow import Index
 from .c02 import binding_of_pat, mname
+from .. import norm as psanorm
 
 MOD = "patronus::system::analysis::"
 IMPL = MOD + "cone_of_influence_impl"
@@ -154,9 +155,17 @@ def run(ctx):
                      "children must be pushed for every popped node via ctx[popped].for_each_child, guarded at most by `!visited.contains(child)` (guards: %s)" % [show(c) if c else "else-branch" for c in conds],
                      sample=show(call)[:160] if call else None)
             continue
+        alt_conds = []
         if d and d[0] == "letexpr":
             src = d[1]["init"]
             fp = field_path(src)
+            if not (fp and fp[2] in (["init"], ["next"])) and peel(src).get("k") == "local":
+                # `let init = if follow_init { state.init } else { None }; if let Some(c) = init`: the one alternative that can be Some, under its conditions
+                alts = psanorm.value_alternatives(src)
+                some_alts = [(cs, x) for cs, x in alts if not (peel(x).get("k") == "def" and (peel(x).get("path") or "").endswith("Option::None"))]
+                if len(some_alts) == 1:
+                    fp = field_path(some_alts[0][1])
+                    alt_conds = some_alts[0][0]
             if fp and fp[2] in (["init"], ["next"]):
                 kind = fp[2][0]
                 st_id = fp[1]
@@ -186,6 +195,12 @@ def run(ctx):
                     state_if = a
                 else:
                     extra.append("`%s`" % show(c)[:80])
+        for c_, pol in alt_conds:
+            c_ = resolve(c_)
+            if pol and is_local(c_, P[flag]):
+                have["flag"] = True
+            else:
+                extra.append("`%s%s`" % ("" if pol else "!", show(c_)[:80]))
         ok = have["flag"] and have["some"] and have["state"] and not extra
         ctx.inst("R17.2", "impl:push-%s" % kind, ok, pu["sp"],
                  "a state's %s expression must be pushed exactly under `%s` (with `let Some(c) = state.%s`, `!visited.contains(&c)`, for the popped state); extra conditions: %s; missing: %s" % (
